@@ -13,7 +13,10 @@ RULE = ("every Valve-protocol entry of the definitions table (translated from th
         "oracle: the definition of that id, the caller's values unchanged. Non-trivial = a delivery received / a plan printed.")
 ASSUMPTIONS = ["modules use the default timeout settings, so the three paths are compared at retry count 0",
                "non-Valve games of the table are covered by the table theorems and are added to the differential as their families land"]
-TRUSTED = ["translator tools/xlate.py (definitions.rs, game_query_mod! invocations, hand-written modules' default ports), validated by this differential"]
+TRUSTED = ["translator tools/xlate.py (definitions.rs, game_query_mod! invocations, hand-written modules' default ports), validated by this differential",
+           "translator tools/xlate_arms.py (the arms of games/query.rs, the conversion impls, the game_query_fn! bodies -> Gen/Arms.lean) and the evaluator "
+           "Proto/ArmsSem.lean: tied to the model by the theorems C14_arms_* (every arm, every argument value) and to the code by the entries "
+           "arms-conv / arms-dispatch (whole product of settings shapes)"]
 
 
 # definitions-table protocol tag -> (family whose generator scripts the server, (argument index, value) selecting the variant)
@@ -45,6 +48,70 @@ def random_extra(rnd):
     return f"E{host}:{pv}:{gp}:{gr}:{ck}"
 
 
+def arms_sweep(rep, tables, first_base, tier):
+    """Tie of the TRANSLATOR (tools/xlate_arms.py -> Gen/Arms.lean) and of the evaluator (Proto/ArmsSem.lean) to the code: the
+    model side of `arms-conv` / `arms-dispatch` evaluates the translated conversion impls / the translated arm of the game, the
+    harness side runs the real conversions / the real generic query.
+      * `arms-conv`: the WHOLE product of field shapes (host name absent / empty / ASCII / trailing dot / non-ASCII x protocol
+        version absent / -1 / 0 / 47 / i32::MAX / i32::MIN x players, rules absent / skip / try / enforce x app-id check absent /
+        true / false);
+      * `arms-dispatch`: for one game of every arm (pattern of the generated table) — Valve twice: a definition with its own
+        gathering settings and one with the default — the first valid exchange under every combination the arm's settings can
+        depend on (Valve / Unreal2: every toggle combination; Minecraft Java / auto: every host name x version) x port given /
+        omitted x timeout settings absent / 2 retries.
+    The arm texts go into the evidence."""
+    import json as _json
+    info = _json.load(open(os.path.join(vlib.WORK, "arms.json")))
+    rep.extra_cov["arms_translated"] = len(info["arms"])
+    rep.extra_cov["arms_not_in_this_build"] = [a["cfg"] for a in info["skipped"]]
+    rep.extra_cov["arms"] = [a["text"] for a in info["arms"]]
+    rep.extra_cov["arms_conversions"] = [f"{c['name']}: {c['text']}" for c in info["convs"] + info["defaults"] + info["into_extras"]]
+    rep.extra_cov["arms_module_macros"] = [a["text"] for a in info["mod_arms"]] + [h["text"] for h in info.get("hand_wrappers", [])]
+    rep.extra_cov["arms_macro_defaults"] = {"game!": info.get("game_default"), "valve::game_query_mod!": info.get("valve_mod_default")}
+    if not info["translated"]:
+        rep.tie_failures.append("translator (arms): " + "; ".join(info["errors"]))
+    lines = []
+    hosts = ["-", "", "676d", "6d632e6578616d706c652e636f6d2e", "c3a9c3a9c3a9"]
+    pvs = ["-", "-1", "0", "47", "2147483647", "-2147483648"]
+    n = 0
+    for h in hosts:
+        for pv in pvs:
+            for gp in "-ste":
+                for gr in "-ste":
+                    for ck in "-TF":
+                        n += 1
+                        lines.append(f"armc{n} arms-conv E{h}:{pv}:{gp}:{gr}:{ck}")
+    lines.append("armc0 arms-conv -")
+    rep.count("arms-conv", len(lines))
+    # one game per arm
+    chosen, seen = [], set()
+    for d in tables["defs"]:
+        key = d["proto"] if d["proto"] != "valve" else ("valve", d["gather"] != "ttT")
+        if key in seen or d["id"] not in first_base:
+            continue
+        seen.add(key)
+        chosen.append(d)
+    for d in chosen:
+        base = first_base[d["id"]]
+        tail = " ".join([base.fmt_script()] + base.opts)
+        if d["proto"] in ("valve", "unreal2"):
+            extras = ["-"] + [f"E-:-:{gp}:{gr}:{ck}" for gp in "-ste" for gr in "-ste" for ck in "-TF"]
+        elif d["proto"] in ("prop:Minecraft(None)", "prop:Minecraft(Some(Server::Java))"):
+            extras = ["-"] + [f"E{h}:{pv}:-:-:-" for h in hosts for pv in pvs]
+        else:
+            extras = ["-", "E-:-:-:-:-", "E676d:47:e:s:F", "E:0:s:e:T"]
+        if tier == "quick" and len(extras) > 25:
+            extras = extras[:1] + extras[1::2]
+        k = 0
+        for extra in extras:
+            for port in ("-", str(d["port"] + 1)):
+                for r in ("-", "2"):
+                    k += 1
+                    lines.append(f"arm_{d['id']}_{k} arms-dispatch {d['id']} {port} {r} {extra} {tail}")
+        rep.count("arms-dispatch-sweep:" + d["proto"].split("(")[0])
+    return lines
+
+
 def run(rep, tier, seed, replay=None):
     if replay is not None:
         cliplan.run(rep, [l for l in replay if cliplan.is_plan(l)], count="cli-query")
@@ -57,6 +124,7 @@ def run(rep, tier, seed, replay=None):
     mods = {m["id"]: m for m in tables["mods"]}
     byname = {m["name"]: m for m in tables["mods"]}
     cases, groups = [], []
+    first_base = {}
     per = 3 if tier == "quick" else 25
     for d in tables["defs"]:
         if d["proto"] != "valve":
@@ -109,10 +177,12 @@ def run(rep, tier, seed, replay=None):
             # the settings rules of the Valve arm (extra settings replace the definition's; timeout settings give the retry count)
             if raw is lines[0]:
                 more = [(rnd.choice(["-", "0", "1", "3"]), random_extra(rnd)) for _ in range(4 if tier == "quick" else 40)]
+                first_base[d["id"]] = base
                 for j, (r, extra) in enumerate(DISPATCH_SETTINGS + more):
                     k += 1
-                    cases.append(f"{d['id']}_{k}dx dispatch {d['id']} {'-' if j % 2 else d['port'] + j} {r} {extra} "
-                                 + " ".join([base.fmt_script()] + base.opts))
+                    rest = f"{d['id']} {'-' if j % 2 else d['port'] + j} {r} {extra} " + " ".join([base.fmt_script()] + base.opts)
+                    cases.append(f"{d['id']}_{k}dx dispatch {rest}")
+                    cases.append(f"{d['id']}_{k}ax arms-dispatch {rest}")
         rep.count("game:" + ("with-module" if m else "definition-only"))
     # ---- every other protocol of the table: the same three paths on the real code, compared through the sorted JSON of
     # as_original() (the paths themselves are glue: games/query.rs, the game_query_mod! modules, the protocol entry points)
@@ -171,10 +241,12 @@ def run(rep, tier, seed, replay=None):
                     cases += [x for x in (grp["dgeneric"], grp["dmodule"]) if x]
             if v is valid[0]:
                 more = [(rnd.choice(["-", "0", "1", "3"]), random_extra(rnd)) for _ in range(4 if tier == "quick" else 40)]
+                first_base[d["id"]] = base
                 for j, (r, extra) in enumerate(DISPATCH_SETTINGS + more):
                     k += 1
-                    cases.append(f"{d['id']}_{k}dx dispatch {d['id']} {'-' if j % 2 else d['port'] + j} {r} {extra} "
-                                 + " ".join([base.fmt_script()] + base.opts))
+                    rest = f"{d['id']} {'-' if j % 2 else d['port'] + j} {r} {extra} " + " ".join([base.fmt_script()] + base.opts)
+                    cases.append(f"{d['id']}_{k}dx dispatch {rest}")
+                    cases.append(f"{d['id']}_{k}ax arms-dispatch {rest}")
         rep.count("game:" + ("with-module" if has_module else "definition-only"))
     # ---- the caller's retry count must reach the protocol on the generic path as it does on the protocol's own entry:
     # an exchange whose first attempt is lost (the family's own fault builder, vector "SV" / "SSV") through `dispatch`
@@ -223,6 +295,17 @@ def run(rep, tier, seed, replay=None):
             cases += [pline, dline]
             settings_pairs.append((fam, host, pline, dline))
             rep.count("settings-through-dispatch:" + fam)
+    cases += arms_sweep(rep, tables, first_base, tier)
+    if tier == "thorough":
+        # self-test of the arms translation: mutated copies of games/query.rs must break the proof stage (tools/arms_selftest.py)
+        import arms_selftest
+        res, restored = arms_selftest.run()
+        rep.extra_cov["arms_selftest"] = [f"{r['mutation']}: {'caught' if r['caught'] else 'skipped' if r['caught'] is None else 'MISSED'} — {r['how']}: {r['detail'][:160]}" for r in res]
+        for r in res:
+            if r["caught"] is False:
+                rep.tie_failures.append(f"arms self-test: mutation {r['mutation']} of games/query.rs is not caught by Props/C14_arms.lean")
+        if not restored:
+            rep.tie_failures.append("arms self-test: the tree does not build after Gen/Arms.lean was restored")
     model, impl, panics = vlib.correspond(rep, netprops.corpus("C14") + cases, oracle=netprops.crash_oracle, trivial=netprops.trivial, tag="c14")
     for fam, host, pline, dline in settings_pairs:
         po, do = impl.get(pline.split(" ", 1)[0], ""), impl.get(dline.split(" ", 1)[0], "")
